@@ -10,7 +10,7 @@
    The Huffman coding of a block and flush_bits are parameters: the theorem holds for
    every block coder whose output fits the 512-byte local buffer.                      *)
 From Coq Require Import List ZArith Bool.
-From LJT Require Import model.Suspend.
+From LJT Require Import model.SuspendCore.
 Import ListNotations.
 
 Definition BUFSIZE := 512%nat.      (* DCTSIZE2 * 8 *)
